@@ -37,7 +37,7 @@ def confirm(src, sid, prop):
   assert rc == 0, out
   try:
     demo_src = open(os.path.join(src, 'demo.py')).read()
-    demo = re.sub(r"/tmp/wt/C\d+", wt, demo_src)
+    demo = re.sub(r"/tmp/wt/C\d+\w*", wt, demo_src)
     demo_path = os.path.join(wt, '_seed_demo.py')
     open(demo_path, 'w').write(demo)
     rc0, out0 = sh([PY, demo_path], cwd=wt)
@@ -55,7 +55,7 @@ def confirm(src, sid, prop):
     dst = os.path.join(SEEDED, sid)
     os.makedirs(dst, exist_ok=True)
     shutil.copy(os.path.join(src, 'patch.diff'), os.path.join(dst, 'patch.diff'))
-    open(os.path.join(dst, 'demo.py'), 'w').write(re.sub(r"/tmp/wt/C\d+", '/repo', demo_src))
+    open(os.path.join(dst, 'demo.py'), 'w').write(re.sub(r"/tmp/wt/C\d+\w*", '/repo', demo_src))
     readme = open(os.path.join(src, 'README.md')).read() if os.path.exists(os.path.join(src, 'README.md')) else ''
     open(os.path.join(dst, 'README.md'), 'w').write(readme)
     meta = {
@@ -76,21 +76,36 @@ def confirm(src, sid, prop):
     shutil.rmtree(wt, ignore_errors=True)
 
 
-def run(sid, checks):
+def run(sid, checks, scratch=False):
+  """scratch=False: apply to /repo, run, revert (the registered way).  scratch=True: same check
+  code against a scratch worktree (VERIF_REPO) with evidence/replays redirected, so that several
+  seeds can be tried in parallel during development."""
   dst = os.path.join(SEEDED, sid)
   meta = json.load(open(os.path.join(dst, 'meta.json')))
   checks = checks or [meta['property']]
-  rc, out = sh(['git', '-C', '/repo', 'status', '--porcelain', '--untracked-files=no'])
-  assert out.strip() == '', '/repo has uncommitted changes:\n' + out
-  rc, out = sh(['git', '-C', '/repo', 'apply', os.path.join(dst, 'patch.diff')])
+  env = dict(os.environ)
+  if scratch:
+    repo = '/tmp/seed_run_%s' % sid
+    subprocess.run(['git', '-C', '/repo', 'worktree', 'remove', '--force', repo],
+                   stdout=subprocess.DEVNULL, stderr=subprocess.DEVNULL)
+    rc, out = sh(['git', '-C', '/repo', 'worktree', 'add', '--detach', repo, 'HEAD'])
+    assert rc == 0, out
+    env['VERIF_REPO'] = repo
+    env['VERIF_EVIDENCE_DIR'] = os.path.join(repo, '_evidence')
+    env['VERIF_REPLAY_DIR'] = os.path.join(repo, '_replays')
+  else:
+    repo = '/repo'
+    rc, out = sh(['git', '-C', '/repo', 'status', '--porcelain', '--untracked-files=no'])
+    assert out.strip() == '', '/repo has uncommitted changes:\n' + out
+  rc, out = sh(['git', '-C', repo, 'apply', os.path.join(dst, 'patch.diff')])
   assert rc == 0, 'patch does not apply: ' + out
   try:
     for c in checks:
       t0 = time.time()
       # evidence written while a seeded change is applied must not replace the committed evidence
       ev = os.path.join(HERE, 'evidence', '%s.json' % c)
-      backup = open(ev).read() if os.path.exists(ev) else None
-      rc, out = sh([os.path.join(HERE, 'bin', 'check'), c, '--tier', 'quick'], cwd=HERE)
+      backup = open(ev).read() if (os.path.exists(ev) and not scratch) else None
+      rc, out = sh([os.path.join(HERE, 'bin', 'check'), c, '--tier', 'quick'], cwd=HERE, env=env)
       if backup is not None:
         open(ev, 'w').write(backup)
       viol = [l for l in out.splitlines() if l.startswith('VIOLATION')]
@@ -105,7 +120,12 @@ def run(sid, checks):
       if rc not in (0, 1):
         print(out[-1500:])
   finally:
-    sh(['git', '-C', '/repo', 'checkout', '--', '.'])
+    if scratch:
+      subprocess.run(['git', '-C', '/repo', 'worktree', 'remove', '--force', repo],
+                     stdout=subprocess.DEVNULL, stderr=subprocess.DEVNULL)
+      shutil.rmtree(repo, ignore_errors=True)
+    else:
+      sh(['git', '-C', '/repo', 'checkout', '--', '.'])
   json.dump(meta, open(os.path.join(dst, 'meta.json'), 'w'), indent=1)
   return 0
 
@@ -115,6 +135,8 @@ def main():
     return confirm(sys.argv[2], sys.argv[3], sys.argv[4])
   if sys.argv[1] == 'run':
     return run(sys.argv[2], sys.argv[3:])
+  if sys.argv[1] == 'srun':
+    return run(sys.argv[2], sys.argv[3:], scratch=True)
   if sys.argv[1] == 'runall':
     for sid in sorted(os.listdir(SEEDED)):
       if os.path.exists(os.path.join(SEEDED, sid, 'meta.json')):
